@@ -42,6 +42,7 @@ def anchor_names():
         return _ANCHORS
     here = os.path.dirname(os.path.abspath(__file__))
     names = set()
+    # (the variant corpora -- variants.py and the per-package variants_<pkg>.py -- are test data, not rules)
     files = [os.path.join(here, f) for f in os.listdir(here) if f.endswith('.py') and f != 'normalize.py' and not f.startswith('variants')]
     pd = os.path.join(here, 'props')
     files += [os.path.join(pd, f) for f in os.listdir(pd) if f.endswith('.py')]
